@@ -2,6 +2,7 @@ package props
 
 import (
 	"fmt"
+	"os"
 	"go/token"
 	"go/types"
 	"sort"
@@ -75,6 +76,10 @@ func C14(p *engine.Prog, r *engine.Report) {
 
 	c14R5(p, r)
 	c14R6(p, r)
+	if os.Getenv("VERIF_C14_STATEDB") != "" {
+		acc2 := fieldAccesses(p, la, map[string]bool{"StateDB": true, "IdentityStateDB": true, "AppState": true}, initPhase)
+		guardedBy(p, r, "C14-R7", acc2, nil)
+	}
 }
 
 // c14R5: index agreement of Remove / ResetTo.
